@@ -125,7 +125,7 @@ def run_case(case, tid, keep_out=False):
               'par': [{'nu': _encf(p['nu']), 'gamma': _encf(p['gamma']), 'h': _encf(p['h']), 'beta': _encf(p['beta']),
                        'mig': [_encf(m) for m in p['mig']]} for p in case['par']],
               'theta0': _encf(case['theta0']), 'frozen': list(case['frozen']), 'nomut': list(case['nomut']), 'mode': mode, 'delj': bool(case.get('delj')),
-              'func': FUNCS[P]}
+              'func': FUNCS[P], 'tf': rat(Integration.timescale_factor)}
     log.add('call', **{'in': callin})
 
     delj_on = bool(case.get('delj'))
@@ -273,6 +273,31 @@ def add_driver_traces(ctx, res, rng, dims, prop, frozen_bias=False):
                         p_['mig'] = [({'c0': 0.0, 'c1': 0.0, 'const': True} if (pt[k_] or pt[j_] or j_ == k_) else m_) for j_, m_ in enumerate(p_['mig'])]
                     if P == 2:
                         c['nomut'] = [rng.random() < 0.5, rng.random() < 0.5]
+                    cases.append(c)
+    if prop == 'C02':
+        # Chang-Cooper weights far out on both sides (|2 M dx / V| > 500: strongly negative and strongly positive advection against weak
+        # drift), on the constant-parameter path (Python coefficients) and the time-function path (compiled kernels); own RNG
+        rx = random.Random(ctx.seed + 902)
+        for P in (1, 2, 3):
+            for mode in ('const', 'linear'):
+                for flavour in (('sel-', 'sel+', 'mig') if P >= 2 else ('sel-', 'sel+')):
+                    if ctx.quick and flavour == 'sel+' and mode == 'linear':
+                        continue
+                    c = gen_case(rx, P, mode=mode, n=8, kind='normal')
+                    c['grid_kind'] = 'uniform'
+                    c['delj'] = True
+                    c['frozen'] = [False] * P
+                    c['nomut'] = [False] * P
+                    c['layout'] = 'C'
+                    c['steps'] = 2.3
+                    for k_, p_ in enumerate(c['par']):
+                        p_['nu'] = {'c0': 100.0 if flavour != 'mig' else 60.0, 'c1': 0.0}
+                        p_['gamma'] = {'c0': {'sel-': -40.0, 'sel+': 38.0, 'mig': 0.0}[flavour], 'c1': 0.0}
+                        p_['h'] = {'c0': 0.5, 'c1': 0.0}
+                        p_['beta'] = {'c0': 1.0, 'c1': 0.0}
+                        p_['mig'] = [({'c0': 0.0, 'c1': 0.0, 'const': True} if j_ == k_ else
+                                      {'c0': (18.0 + 0.25 * (k_ * 3 + j_)) if flavour == 'mig' else 0.0, 'c1': 0.0, 'const': flavour != 'mig'})
+                                     for j_ in range(P)]
                     cases.append(c)
     if prop == 'C04':
         # a frozen population with migration must be rejected: every (P, frozen population, partner, direction)
